@@ -12,6 +12,8 @@ from run import Case
 import zoo
 import zoo_c12 as Z
 
+from kernels_tie import pre_build, restore_generated, build_failure_is_tie, build_ok  # noqa: F401  (tie by translation)
+
 PROPERTY = "C12"
 LEAN_MODULE = "PyOak.Props.C12All"
 _NS = "PyOak.Acc.C12."
@@ -28,7 +30,8 @@ THEOREMS = [_NS + t for t in [
     "call_runs_own_function", "without_repointing_fails", "marker_sharing_fails", "F12_pre_fix_fails",
     "F17_pre_fix_fails", "foldl_resolved", "resolve_replay",
     "strLt_irrefl", "strLt_asymm", "strLt_total", "strLt_negtrans", "sortByName_perm", "sortByName_pairwise",
-]] + ["PyOak.C12X." + t for t in [
+]]
+THEOREMS += ["PyOak.GenBridge.propertyFieldYielded_eq_gen"] + ["PyOak.C12X." + t for t in [
     "sortByName_stable", "stableSort_unique", "edgesSorted_eq_stableSort", "edgesSorted_spec", "edgesSorted_unique",
     "get_child_nodes_with_field_sorted", "get_child_nodes_sorted", "iter_child_fields_sorted"]]
 RULE = ("seeded generated families of node classes (source text exec'ed in a fresh module): chains of 1-4 classes with 0-6 "
